@@ -125,10 +125,8 @@ def judge(acc, case, producer, eng, d, M, rb, cb, I, D, psi, md, pyM=None):
                 neg.append((i, j))
                 continue
             if i == 0 or j == 0:
-                if pyM is not None:
-                    exp = float(pyM[i][j])
-                    if not (got == exp or core.ulp_close(got, exp, 4)):
-                        bad = bad or ('border cell differs from the Python matrix', (i, j), exp, got)
+                # row 0 / column 0 hold the virtual start cells; C04 describes neither their content nor their band
+                # (the engines legitimately differ where such a cell has no in-band neighbour): not judged
                 continue
             v = D.get((i - 1, j - 1))
             if v is None:
@@ -279,6 +277,24 @@ def universe(tier, seed, shard, nshards):
                                 's1': univ.catalogue(r, A, k1), 's2': univ.catalogue(c, A, k2), 'window': w, 'penalty': pen, 'psi': psi,
                                 'max_step': ms, 'max_dist': md, 'inner': 'sq' if (k1 + k2) % 2 == 0 else 'eu',
                                 'keep_int_repr': bool((k1 + r) % 2), 'psi_neg': True}
+    # long thin bands: shapes up to 12 with narrow windows (where the compact layout has all four regions)
+    for r in range(1, 13):
+        for c in range(1, 13):
+            if max(r, c) < 7:
+                continue
+            idx += 1
+            if idx % nshards != shard:
+                continue
+            for w in (1, 2, 3):
+                for psi in (None, 1, (0, 0, 0, 2), (0, 2, 0, 0), (2, 0, 0, 0), (0, 0, 2, 0)):
+                    if psi is not None:
+                        p = oracles.norm_psi(psi)
+                        if oracles.psi_degenerate(p, r, c) or max(p[:2]) > r or max(p[2:]) > c:
+                            continue
+                    for (k1, k2) in ((0, 3), (5, 0)):
+                        for pen in (None, 0.5):
+                            yield 'U5-long', False, {'s1': univ.catalogue(r, A, k1), 's2': univ.catalogue(c, A, k2), 'window': w, 'penalty': pen, 'psi': psi,
+                                                     'max_step': None, 'max_dist': None, 'inner': 'sq' if (r + c) % 2 else 'eu', 'keep_int_repr': bool(r % 2), 'psi_neg': True}
     # multivariate
     A2 = univ.alphabet(univ.BASE2, seed)
     sers2 = univ.series_nd(A2, 2, 1, 2)
@@ -325,8 +341,8 @@ def run(ctx):
                 'U1': 'all pairs len 1..3 x window{None,1,2} x penalty x max_step x inner x 9 psi forms x max_dist{None,1.6%s} x (keep_int_repr,psi_neg) in {(F,T),(T,F)}' % (',0.9,2.2' if ctx.thorough else ''),
                 'U2': 'shapes up to %dx%d: every slice [rb:re, cb:ce] of the full matrix, every window, 7 psi forms' % ((5, 4) if ctx.thorough else (4, 3)),
                 'U3': 'all shapes up to %d x every window x catalogue values' % (6 if ctx.thorough else 5),
-                'U4': 'ndim 2, len 1..2'},
-        assumptions=['row 0 / column 0 of the matrix are not described by C04; for C producers they are compared with the Python matrix only',
+                'U4': 'ndim 2, len 1..2', 'U5': 'long thin bands: every shape up to 12x12 with max >= 7, windows 1..3, 6 psi forms'},
+        assumptions=['row 0 / column 0 of the matrix (virtual start cells) are not described by C04 and not judged; a wrong start cell shows in the in-band cells it feeds',
                      'cells whose optimum is within 1e-9 relative of max_dist are not judged'],
         t0=ctx.t0)
 
